@@ -50,7 +50,7 @@ def run(ctx):
     osy = ctx.osyris
     out_ = Outcome()
     r = ctx.rng
-    nds = 5 if ctx.tier == "quick" else 60
+    nds = 5 if ctx.tier == "quick" else 25
     dist = {}
     for di in range(nds):
         out, _ = gen_hilbert_output(r, ncpu=r.choice([4, 8, 16, 32]), levelmin=r.choice([2, 3]), levelmax=r.choice([3, 4]), max_octs=40)
